@@ -50,6 +50,13 @@ def G5(head_left=True):
                 unary=[], roots=[2, 3], uniform=True)
 
 
+def G7(head_left=False):
+    """a unary step over a two-word span whose head is not its first word, then attached further (n = 3)"""
+    h = 1 if head_left else 0
+    return dict(name='G7' if not head_left else 'G7l', ncats=7, T=3, binary=[(0, 1, 3, h, 'ab'), (4, 2, 5, h, 'zc'), (3, 2, 5, h, 'yc'), (1, 2, 6, h, 'bc'), (0, 6, 5, h, 'aw')],
+                unary=[(3, 4, 'u')], roots=[5], uniform=True)
+
+
 def G6():
     """one word, four tags, unary rules (two results with different labels for tag 0), several roots (n = 1 obligations)"""
     return dict(name='G6', ncats=7, T=4, binary=[], unary=[(0, 4, 'a'), (0, 6, 'a2'), (1, 4, 'b'), (4, 5, 'c'), (2, 6, 'd')], roots=[3, 5, 6, 1], uniform=True)
@@ -61,7 +68,11 @@ def real_grammar(lang):
     hook.install(instrument=False)
     from depccg.cat import Category
     from depccg.grammar import en, ja
-    if lang == 'en':
+    if lang == 'en_punct':
+        lex = ['NP', ',', 'LQU', 'N']
+        unary = {Category.parse('N'): [Category.parse('NP')]}
+        g, roots = en, ['NP', 'N']
+    elif lang == 'en':
         lex = ['NP', 'N', '(S[dcl]\\NP)/NP', 'NP[nb]/N']
         unary = {Category.parse('N'): [Category.parse('NP')]}
         g, roots = en, ['S[dcl]', 'NP']
@@ -234,7 +245,10 @@ def run_search_check(pid, tier, obligations, prefixes, functions, bounds, outsid
             for chunk, (js, ress) in zip(chunks, outs):
                 for (r, rec), job, res in zip(chunk, js, ress):
                     if res.get('error'):
-                        harness_errors.append('%s: native run of a path witness raised %s' % (r['name'], res['error']))
+                        if 'C02.' in prefixes:
+                            nat_viol.setdefault((r['name'], 'C02.run-raises-on-valid-input'), dict(engine='N', obligation=r['name'], signature='C02.run-raises-on-valid-input', job=job, detail=res['error'][:400]))
+                        else:
+                            harness_errors.append('%s: native run of a path witness raised %s' % (r['name'], res['error']))
                         continue
                     if not model_ok(rec['model']):
                         continue
